@@ -5,7 +5,7 @@ and the producers that promise canonical form (slicing, arithmetic, concatenatio
 RunLengthArray invariant (contracts.rla_canonical) is attached to *every* instance created
 while a C14-C17 workload runs."""
 import numpy as np
-from ..core import CTX, attempt, held, violated, undefined, same_array, short
+from ..core import CTX, attempt, held, violated, undefined, same_array, short, scribble
 from .. import gen, contracts, rl
 
 PROP = "C14"
@@ -15,10 +15,10 @@ ASSUMPTIONS = ["'equal' is numpy's ==: -0.0 and 0.0 may share a run; NaN never e
 ANCHORS = ["runlengtharray.py::RunLengthArray.from_array", "runlengtharray.py::RunLengthArray.to_array", "runlengtharray.py::RunLengthArray.__init__",
            "runlengtharray.py::RunLengthArray.remove_empty_intervals", "runlengtharray.py::RunLengthArray.join_runs",
            "util.py::unsafe_extend_left", "util.py::unsafe_extend_right", "runlengtharray.py::RunLengthArray.__array__"]
-KINDS = ["encode", "slice", "ufunc2", "unary", "scalar", "concat"]
+KINDS = ["encode", "slice", "ufunc2", "unary", "scalar", "concat", "slice_derived"]
 FLOOR_TAGS = ["k:" + k for k in KINDS] + ["style:" + s for s in rl.STYLES] + ["kind:b", "kind:i", "kind:u", "kind:f", "dt:float16", "v:nonfinite", "slice:stepped", "slice:unit",
                                                                               "adjacent-inf", "adjacent-nan"]
-FLOOR_MONITORS = ["c14:roundtrip", "c14:canonical", "c14:joined", "inv:rla"]
+FLOOR_MONITORS = ["c14:roundtrip", "c14:canonical", "c14:joined", "c14:decode-independent", "inv:rla"]
 N_RANDOM = {"quick": 30000, "thorough": 400000}
 UF2 = ["add", "subtract", "multiply", "maximum", "minimum", "equal", "less", "logical_or", "logical_and", "bitwise_xor", "not_equal"]
 
@@ -59,6 +59,15 @@ def run(case):
             return violated("%s.%s raised %r" % (desc, what, o), tags)
         if not (isinstance(o.value, np.ndarray) and same_array(o.value, v, dtype=True)):
             return violated("%s.%s gives %s %s" % (desc, what, getattr(o.value, "dtype", None), short(o.value, 160)), tags, got=o.value, expected=v)
+    # a decoded array belongs to the caller: overwriting it must not change what the encoded array decodes to
+    CTX.tick("c14:decode-independent")
+    for f in (lambda: r.to_array(), lambda: np.asarray(r)):
+        o = attempt(f)
+        if o.ok:
+            scribble(o.value)
+        o2 = attempt(r.to_array)
+        if not o2.ok or not same_array(o2.value, v, dtype=True):
+            return violated("%s: after the caller overwrote a decoded copy, to_array() gives %s" % (desc, repr(o2) if not o2.ok else short(o2.value, 160)), tags + ["decode-aliases-state"])
     m = attempt(lambda: (int(len(r)), int(r.size), tuple(int(x) for x in r.shape), r.dtype == dt))
     if not m.ok or m.value != (L, L, (L,), True):
         return violated("%s reports len/size/shape/dtype-equal = %s, expected %s" % (desc, repr(m) if not m.ok else m.value, (L, L, (L,), True)), tags)
@@ -80,6 +89,22 @@ def run(case):
         exp = attempt(lambda: v[s])
         a = attempt(lambda: r[s])
         what = "rla[%s]" % short(s)
+    elif kind == "slice_derived":
+        # a stepped slice of an encoding that is itself not joined (result of a scalar ufunc / of a concatenation with equal values at the seam)
+        s = case["slice"]
+        st = 1 if s.step is None else s.step
+        joined = abs(st) != 1
+        tags.append("slice:stepped" if joined else "slice:unit")
+        if case["via"] == "concat":
+            src = np.concatenate([r, r])
+            dense = np.concatenate([v, v])
+        elif case["via"] == "floordiv":
+            src, dense = (r // 2, v // 2) if dt.kind != "b" else (np.logical_or(r, True), np.logical_or(v, True))
+        else:
+            src, dense = (r > 2, v > 2) if dt.kind != "b" else (np.logical_and(r, False), np.logical_and(v, False))
+        exp = attempt(lambda: dense[s])
+        a = attempt(lambda: src[s])
+        what = "(%s of rla)[%s]" % (case["via"], short(s))
     elif kind == "ufunc2":
         w = np.array(case["vals2"]).astype(case["dtype2"])
         uf = getattr(np, case["uf"])
@@ -138,6 +163,9 @@ def gen_case(rng, tier, kind=None, dtype=None, vclass=None, style=None):
     L = len(v)
     if kind == "slice":
         c["slice"] = gen.gen_slice(rng, L)
+    elif kind == "slice_derived":
+        c["via"] = rng.choice(["concat", "floordiv", "cmp"])
+        c["slice"] = gen.gen_slice(rng, 2 * L if c["via"] == "concat" else L, steps=(2, 3, -1, -2, -3, None, 7))
     elif kind == "ufunc2":
         dt2 = rng.choice(gen.DT_ALL)
         align = rng.choice(["indep", "same", "shifted"])
@@ -173,6 +201,10 @@ def directed():
             yield mk_case(dtype, vals, "slice", slice=slice(None, None, 2), style="runs", vclass="nonfinite")
             yield mk_case(dtype, vals, "ufunc2", vals2=[1.0] * len(vals), dtype2="float64", uf="multiply", style="runs", vclass="nonfinite")
     # coinciding boundaries with a result that is constant across them
+    for vals in ([4, 4, 9, 9], [1, 2, 3], [5, 5, 5, 6], [2, 3, 2, 3, 4, 5]):
+        for via in ("concat", "floordiv", "cmp"):
+            for sl in (slice(None, None, 2), slice(None, None, -1), slice(None, None, -2), slice(1, None, 3)):
+                yield mk_case("int64", vals, "slice_derived", via=via, slice=sl, style="runs", vclass="small")
     for a, b, uf in [([1, 1, 2, 2], [2, 2, 1, 1], "add"), ([1, 1, 2, 2], [1, 1, 2, 2], "subtract"), ([1, 2, 2, 3], [1, 2, 2, 3], "equal"),
                      ([0, 0, 5, 5, 0], [5, 5, 0, 0, 5], "maximum"), ([1, 0, 0, 1], [0, 1, 1, 0], "logical_or"), ([3, 3, 3, 4, 4], [4, 4, 3, 3, 3], "minimum")]:
         for dtype in ["int64", "float32", "uint8"]:
